@@ -635,7 +635,7 @@ class Parser:
 
     def _parse_hex_digits(self, digits: str, token: Token) -> int:
         codepoint = 0
-        for digit in digits.encode():
+        for digit in map(ord, digits):
             codepoint <<= 4
             if digit >= 48 and digit <= 57:
                 codepoint |= digit - 48
